@@ -4,9 +4,10 @@
 (* measured on the real code.                                                  *)
 EXTENDS Faults
 
-MCPrograms == << [n |-> 5, commits |-> <<5>>],          \* a single write
-                 [n |-> 4, commits |-> <<>>],           \* its dry run
-                 [n |-> 9, commits |-> <<3, 6, 9>>] >>  \* a sequential bulk of three elements
+MCPrograms == << [n |-> 5, commits |-> <<5>>, writes |-> <<1>>],                 \* a single write
+                 [n |-> 4, commits |-> <<>>, writes |-> <<>>],                   \* its dry run
+                 [n |-> 9, commits |-> <<3, 6, 9>>, writes |-> <<1, 1, 1>>],     \* a sequential bulk of three elements
+                 [n |-> 9, commits |-> <<9>>, writes |-> <<3>>] >>               \* an atomic bulk of three elements
 MCErrKinds == {"08006", "40001", "57014", "cancel", "40P01"}
 MCRetryable == {"40P01"}
 =============================================================================
